@@ -4,8 +4,8 @@ from .common import *
 
 RULE = ('cases: generated programs (chains): typed expression DAGs of depth <= 4 over static_number<D, E, RoundingTag, OverflowTag, '
         'Narrowest> / static_integer leaves (D in 1..100, E in -40..40, four rounding tags, saturated / throwing / trapping overflow '
-        'tags, narrowest int8/int/int64; 64/128-bit and multi-word storage arise from the digit counts) using + - * / unary - and '
-        'narrowing construction back to a leaf type; chains are drawn from VERIF_SEED, leaf values from the declared range by '
+        'tags, narrowest int8/int16/int; 64/128-bit and multi-word storage arise from the digit counts) using + - * / % unary -, the six '
+        'comparisons (both operand orders), and narrowing construction / assignment back to a leaf type; chains are drawn from VERIF_SEED, leaf values from the declared range by '
         'rapidcheck (extremes included). oracle: node by node in GMP rationals: exact value from exact children; for / the quotient '
         'of the reps rounded by the chain\'s rounding mode; for a narrowing construction the value rounded by the mode at the '
         'destination resolution; at each node the CNL value must equal it, or the overflow signal of the chain\'s tag must be '
@@ -46,9 +46,10 @@ def gen_chain(rng, idx):
     n = nleaf
     nops = rng.randint(2, 4)
     for k in range(nops):
-        kind = rng.choice(['ADD', 'SUB', 'MUL', 'DIV', 'NEG', 'CONVERT', 'CONVERT', 'MUL', 'ADD'])
-        a = rng.randrange(n)
-        b = rng.randrange(n)
+        kind = rng.choice(['ADD', 'SUB', 'MUL', 'DIV', 'NEG', 'CONVERT', 'CONVERT', 'MUL', 'ADD', 'MOD', 'CMP', 'ASSIGN'])
+        values = [i for i in range(n) if types[i] is not None]  # comparison nodes are not operands
+        a = rng.choice(values)
+        b = rng.choice(values)
         da, ea = types[a]
         db, eb = types[b]
         if kind in ('ADD', 'SUB'):
@@ -72,11 +73,19 @@ def gen_chain(rng, idx):
             lines.append('auto x%d = x%d / x%d; tr.rec(x%d);' % (n, a, b, n))
             specs.append('{c11::DIV, %d, %d, 0, 0}' % (a, b))
             types[n] = (da, ea - eb)
+        if kind == 'MOD':
+            lines.append('auto x%d = x%d %% x%d; tr.rec(x%d);' % (n, a, b, n))
+            specs.append('{c11::MOD, %d, %d, 0, 0}' % (a, b))
+            types[n] = (min(da, db), ea)
+        if kind == 'CMP':
+            lines.append('tr.rec_cmp(x%d, x%d);' % (a, b))
+            specs.append('{c11::CMP, %d, %d, 0, 0}' % (a, b))
+            types[n] = None
         if kind == 'NEG':
             lines.append('auto x%d = -x%d; tr.rec(x%d);' % (n, a, n))
             specs.append('{c11::NEG, %d, -1, 0, 0}' % a)
             types[n] = (da, ea)
-        if kind == 'CONVERT':
+        if kind in ('CONVERT', 'ASSIGN'):
             # destination: around the source's magnitude, sometimes narrower (overflow), sometimes coarser (rounding)
             top = da + ea
             e = ea + rng.choice([0, 0, 1, 2, 3, 5, -1, -3])
@@ -88,8 +97,11 @@ def gen_chain(rng, idx):
                 EXCLUDED['C11-conversion-shifts-out-all-digits'] = EXCLUDED.get('C11-conversion-shifts-out-all-digits', 0) + 1
                 e = ea + max(0, da - 1)
                 d = max(1, min(250, top - e + 1))
-            lines.append('auto x%d = %s{x%d}; tr.rec(x%d);' % (n, tname(d, e), a, n))
-            specs.append('{c11::CONVERT, %d, -1, %d, %d}' % (a, d, e))
+            if kind == 'ASSIGN':
+                lines.append('%s x%d{}; x%d = x%d; tr.rec(x%d);' % (tname(d, e), n, n, a, n))
+            else:
+                lines.append('auto x%d = %s{x%d}; tr.rec(x%d);' % (n, tname(d, e), a, n))
+            specs.append('{c11::%s, %d, -1, %d, %d}' % (kind, a, d, e))
             types[n] = (d, e)
         n += 1
     name = 'C11|chain|%04d|%s|%s|%s' % (idx, rc[2:].lower(), oc[2:].lower(), nar.replace(' ', '_'))
